@@ -250,6 +250,7 @@ def run(c):
     c.trusted.append("translator/pyinterp.py + gen_classify.py (fail-closed definitional interpreter; sqlglot's parse trees are scripted: the table covers the method's own logic, not sqlglot's parser)")
     lib.regen_small(c, "_join_conjuncts")
     lib.regen_cte(c)
+    lib.regen_refrewrite(c)
     c.build_props()
     n = 120 if c.tier == "quick" else 1500
     cases = [gen_case(c.rng) for _ in range(n)] + [gen_key_case(c.rng) for _ in range(n // 6)] + [gen_same_predicate_case(c.rng) for _ in range(n // 8)] + [gen_negated_or_case(c.rng) for _ in range(max(12, n // 8))]
